@@ -329,6 +329,24 @@ func isFatalLog(c *ssa.CallCommon) bool {
 	return strings.HasPrefix(n, "log.Fatal") || strings.HasPrefix(n, "(*log.Logger).Fatal")
 }
 
+// reportsErrSync: reportsErr, and the message is written by the call itself.
+// A module wrapper which only queues the message on a channel does not put it
+// in front of the user before the program exits (rmain's set-up steps run
+// before anything drains the output channel).
+func reportsErrSync(i ssa.Instruction, errV ssa.Value, known map[*ssa.Function]printfInfo, p *Prog) bool {
+	if !reportsErr(i, errV, known, p) {
+		return false
+	}
+	c := callCommon(i)
+	if f := c.StaticCallee(); nil != f && inModule(f) && queuesOnly(f, 0) {
+		return false
+	}
+	if f, _ := closureOf(resolveLocalFunc(c.Value)); nil != f && inModule(f) && queuesOnly(f, 0) {
+		return false
+	}
+	return true
+}
+
 // reportsErr: the call is a message call which has errV among its arguments.
 func reportsErr(i ssa.Instruction, errV ssa.Value, known map[*ssa.Function]printfInfo, p *Prog) bool {
 	c := callCommon(i)
@@ -385,15 +403,15 @@ func checkC20Steps(p *Prog, r *Report, ru *Rule) {
 		for _, t := range tests {
 			from := Loc{t.If.Block().Succs[1-t.NilSucc], -1}
 			/* (a) reported before leaving. */
-			silent := reachQ{From: from, Block: func(i ssa.Instruction) bool { return reportsErr(i, errV, known, p) }, Target: func(i ssa.Instruction) bool {
+			silent := reachQ{From: from, Block: func(i ssa.Instruction) bool { return reportsErrSync(i, errV, known, p) }, Target: func(i ssa.Instruction) bool {
 				if isReturn(i) {
 					return true
 				}
 				cc := callCommon(i)
-				return nil != cc && isExitCall(cc) && !reportsErr(i, errV, known, p)
+				return nil != cc && isExitCall(cc) && !reportsErrSync(i, errV, known, p)
 			}}.run()
 			if nil != silent {
-				ru.Bad(c+":reported", posOf(silent), "when setting up %s fails the program can leave without a message naming the cause", what)
+				ru.Bad(c+":reported", posOf(silent), "when setting up %s fails the program can leave without a message naming the cause having been written (a message only queued on the output channel is lost: nothing drains it before exit)", what)
 				continue
 			}
 			/* (b) leaves with failure: no return of 0 and no falling through to the rest of start-up. */
@@ -816,4 +834,62 @@ func sameFdSource(a, b ssa.Value) bool {
 	}
 	fa, fb := f(a), f(b)
 	return nil != fa && fa == fb
+}
+
+// queuesOnly: the message function sends on a channel and never writes
+// (directly or through module callees) to a terminal, stderr or a logger.
+func queuesOnly(f *ssa.Function, depth int) bool {
+	if depth > 3 || nil == f.Blocks {
+		return false
+	}
+	sends, writes := false, false
+	eachInstr(f, func(i ssa.Instruction) {
+		switch x := i.(type) {
+		case *ssa.Send:
+			sends = true
+		case *ssa.Select:
+			for _, st := range x.States {
+				if types.SendOnly == st.Dir {
+					sends = true
+				}
+			}
+		case *ssa.Call:
+			n := calleeName(x.Common())
+			switch {
+			case strings.HasPrefix(n, "log."), strings.HasPrefix(n, "(*log.Logger)."), strings.HasPrefix(n, "fmt.Fprint"), strings.HasPrefix(n, "fmt.Print"),
+				strings.HasPrefix(n, "io.WriteString"), strings.HasSuffix(n, ".Write"), strings.HasSuffix(n, ".WriteTo"), strings.HasSuffix(n, ".WriteString"):
+				writes = true
+			}
+			if sc := x.Common().StaticCallee(); nil != sc && inModule(sc) && sc != f {
+				if !queuesOnly(sc, depth+1) && hasOutput(sc, depth+1) {
+					writes = true
+				}
+				if queuesOnly(sc, depth+1) {
+					sends = true
+				}
+			}
+		}
+	})
+	return sends && !writes
+}
+
+func hasOutput(f *ssa.Function, depth int) bool {
+	if depth > 3 || nil == f.Blocks {
+		return false
+	}
+	out := false
+	eachInstr(f, func(i ssa.Instruction) {
+		if c, ok := i.(*ssa.Call); ok {
+			n := calleeName(c.Common())
+			switch {
+			case strings.HasPrefix(n, "log."), strings.HasPrefix(n, "fmt.Fprint"), strings.HasPrefix(n, "fmt.Print"), strings.HasPrefix(n, "io.WriteString"),
+				strings.HasSuffix(n, ".Write"), strings.HasSuffix(n, ".WriteTo"), strings.HasSuffix(n, ".WriteString"):
+				out = true
+			}
+			if sc := c.Common().StaticCallee(); nil != sc && inModule(sc) && sc != f && hasOutput(sc, depth+1) {
+				out = true
+			}
+		}
+	})
+	return out
 }
